@@ -5,6 +5,7 @@ from ..terms import show, subterms
 from . import conv as CV
 from . import worlds as W
 from . import modular
+from . import julian
 
 
 def run(ctx, rep, pid='C01'):
@@ -32,3 +33,5 @@ def run(ctx, rep, pid='C01'):
             rep.ob('R1.3', 'Dhuhr:no-weather', not hw, 'no weather atom in the Dhuhr term' if not hw else 'Dhuhr depends on weather')
             rep.sample({'Dhuhr': show(d, maxd=7)[:500]})
     modular.check(ctx, rep, c)
+    if pid == 'C01':
+        julian.check(ctx, rep, 'R1.4')
